@@ -7,6 +7,9 @@ from ..loops import dotted
 from ..nf import NF, Scope, Poly, parse_expr
 from ..repo import Repo, loc, short, AnalysisError, positional_params, param_names, bind_call
 from ..resolve import Resolver
+from ..sem import same_ingredients, ingredient_tokens
+
+BASIC_EXTRAS = {"sum", "mean", "max", "min", "maximum", "minimum", "abs", "square", "exp", "log", "sqrt", "q1", "q2", "stop_gradient", "squeeze", "axis", "jnp", "jax", "numpy", "lax"}
 from ..sympath import enumerate_paths, PathEval
 from .c05 import grad_sites
 
@@ -75,6 +78,11 @@ def check_formula(ck, repo, nf, q, rule, spec):
     ok = got == want
     why = ""
     if not ok:
+        # functions with known, different meaning may replace documented ones (sum for mean, maximum for minimum, one critic for both);
+        # anything else - in particular size-like quantities that could rebuild a mean from a sum - leaves the comparison undecided
+        extra = ingredient_tokens(got) - ingredient_tokens(want)
+        if not extra <= BASIC_EXTRAS:
+            raise AnalysisError(f"{q}: objective `{got.canon()[:120]}` is not written with the documented building blocks (unrecognised form)")
         d = got - want
         why = f"objective differs from the documented one by `{d.canon()[:200]}`"
     ck.ob(rule, q, "objective-identity", ok, f"{got.canon()[:170]}", why, loc(mi, fn))
